@@ -7,6 +7,7 @@ CONSTANTS
   MaxTotal = 4
   QCap = 2
   WireCap = 1
+  CutBetween = FALSE
   Cuts = {1}
 INVARIANTS TypeOK InOrderWhole Assembly NoLoss
 PROPERTIES DeliverStep
